@@ -133,29 +133,42 @@ Fixpoint span_safe (s : bytes) : bytes * bytes :=
   end.
 Definition parse_str (s : bytes) : option (bytes * bytes) :=
   match s with
-  | 34 :: t => let '(a, r) := span_safe t in match r with 34 :: r' => Some (a, r') | _ => None end
-  | _ => None
+  | c :: t =>
+      if c =? 34 then
+        let '(a, r) := span_safe t in
+        match r with c' :: r' => if c' =? 34 then Some (a, r') else None | [] => None end
+      else None
+  | [] => None
   end.
 (* after '{' or ',': "k":"v" then ',' or '}' at the end of the input; the fuel (input length) cannot run out *)
 Fixpoint parse_pairs (fuel : nat) (s : bytes) : option (list (bytes * bytes)) :=
   match fuel with
   | O => None
-  | S n =>
+  | Datatypes.S n =>
       match parse_str s with
-      | Some (k, 58 :: r) =>
-          match parse_str r with
-          | Some (v, [125]) => Some [(k, v)]
-          | Some (v, 44 :: r') => match parse_pairs n r' with Some m => Some ((k, v) :: m) | None => None end
-          | _ => None
-          end
+      | Some (k, c :: r) =>
+          if c =? 58 then
+            match parse_str r with
+            | Some (v, c' :: r') =>
+                if (c' =? 125) && is_nil r' then Some [(k, v)]
+                else if c' =? 44 then match parse_pairs n r' with Some m => Some ((k, v) :: m) | None => None end
+                else None
+            | _ => None
+            end
+          else None
       | _ => None
       end
   end.
 Definition json_decode (s : bytes) : option (list (bytes * bytes)) :=
   match s with
-  | [123; 125] => Some []
-  | 123 :: t => parse_pairs (length s) t
-  | _ => None
+  | c :: t =>
+      if c =? 123 then
+        match t with
+        | [c'] => if c' =? 125 then Some [] else parse_pairs (length s) t
+        | _ => parse_pairs (length s) t
+        end
+      else None
+  | [] => None
   end.
 
 (* a Go map marshals with sorted keys; a later duplicate key wins *)
